@@ -1068,9 +1068,16 @@ def register(tpl):
             # non-trivial: at least one checked conversion preceded by at least one other action
             if nconv >= 1 and len(desc["ops"]) >= 2:
                 dd.add(digest(desc["ops"])[:16])
-            if len(agg["samples"]) < req.get("n_samples", 0):
-                agg["samples"].append({"seed": seed, "ops": _compact_ops(desc["ops"]),
-                                       "events": _compact_events(result["events"])})
+            if req.get("n_samples", 0):
+                # keep the most varied histories of the batch as samples (op kinds, fired aborts)
+                kinds = {o["op"] for o in desc["ops"]}
+                score = len(kinds) + (3 if any(e.get("fired") for e in result["events"]) else 0) + (1 if len(desc["ops"]) >= 4 else 0)
+                cand = (score, {"seed": seed, "ops": _compact_ops(desc["ops"]), "events": _compact_events(result["events"])})
+                best = agg.setdefault("_best", [])
+                best.append(cand)
+                best.sort(key=lambda t: -t[0])
+                del best[req["n_samples"]:]
+        agg["samples"] = [c[1] for c in agg.pop("_best", [])]
         agg["states"] = sorted(digest(s)[:12] for s in states)
         agg["transitions"] = sorted(trans)
         agg["desc_digests"] = sorted(dd)
